@@ -113,6 +113,26 @@ def gen_theory(fp):
             '   expected C++ spelling and operand types; no signature names a context outside the native inventory *)',
             'Lemma gen_op_table_ok : gen_ops_spelled_right = true /\\ forallb (fun n => n =? 8) gen_ops_per_ctx = true /\\ gen_foreign_ctx_signatures = 0.',
             'Proof. vm_compute. repeat split; reflexivity. Qed.', '']
+    # the storage chosen for the exact sum of n values of an integer rung (what `sum` over a list of static length n needs)
+    # holds n * min and n * max of the rung -- or no rung is chosen at all
+    out += ['From FpyV Require Import Backend.StorageProofs.',
+            'Fixpoint sum_fmt (A acc : absfmt) (n : nat) : result absfmt :=',
+            '  match n with O => Ok acc | S k => match af_add acc A with Ok C => sum_fmt A C k | Err e => Err e end end.',
+            'Definition sum_storage_ok (p : cppscalar * absfmt) (n : nat) : bool :=',
+            '  match int_range (fst p), sum_fmt (snd p) (snd p) (n - 1) with',
+            '  | Some (lo, hi), Ok C =>',
+            '      match choose_storage_scalar C false with',
+            '      | SLadder t => match int_range t with',
+            '                     | Some (lo2, hi2) => (lo2 <=? Z.of_nat n * lo) && (Z.of_nat n * hi <=? hi2)',
+            '                     | None => match float_params t with Some (pr, _, _) => Z.of_nat n * Z.max hi (- lo) <=? 2 ^ pr | None => false end',
+            '                     end',
+            '      | _ => true',
+            '      end',
+            '  | Some _, Err _ => false',
+            '  | None, _ => true',
+            '  end.',
+            'Lemma gen_sum_storage_ok : forallb (fun p => forallb (sum_storage_ok p) [2; 3; 4; 7]%nat) gen_ladder = true.',
+            'Proof. vm_compute. reflexivity. Qed.', '']
     return '\n'.join(out)
 
 
